@@ -122,6 +122,7 @@ pub assume_specification [<Regions as Default>::default] () -> (r: Regions)
             ("keys_kept(&old(semantic).type_registry, &final(semantic).type_registry)", ("C10", "C14"), "keys-kept"),
             ("final(semantic).type_registry.pointer_size == old(semantic).type_registry.pointer_size", ("C10",), "keeps-pointer-size"),
             ("registry_frame(&old(semantic).type_registry, &final(semantic).type_registry, *resolvee_path)", ("C10", "C19"), "attempt-frame"),
+            ("entries_kept(&old(semantic).type_registry, &final(semantic).type_registry)", ("C14", "C17"), "attempt-keeps-entries"),
         ])
     # first base: `regions.iter().map(|t| &t.1).find(|r| r.is_base)`
     fnd = fw.method_calls(fn, "find")
@@ -150,6 +151,7 @@ pub assume_specification [<Regions as Default>::default] () -> (r: Regions)
         ("modules_frame(old(semantic).modules@, semantic.modules@)", ("C05", "C10", "C14", "C15")),
         ("registry_frame(&old(semantic).type_registry, &semantic.type_registry, *resolvee_path)", ("C10", "C19")),
         ("keys_kept(&old(semantic).type_registry, &semantic.type_registry)", ("C10",)),
+        ("entries_kept(&old(semantic).type_registry, &semantic.type_registry)", ("C14", "C17")),
         ("semantic.type_registry.pointer_size == old(semantic).type_registry.pointer_size", ("C10",)),
         "resolved.last_address == sum_sizes(resolved.regions@, &semantic.type_registry)",
         "all_sized(resolved.regions@, &semantic.type_registry)",
@@ -217,6 +219,7 @@ pub assume_specification [<Regions as Default>::default] () -> (r: Regions)
         ("first_base_of(regions@) is Some ==> ty_size(first_base_of(regions@)->0.type_ref, &old(semantic).type_registry) is Some", ("C10", "C06")),
 
         "reg == &semantic.type_registry",
+        ("entries_kept(&old(semantic).type_registry, &semantic.type_registry)", ("C14", "C17")),
         ("keys_kept(&old(semantic).type_registry, &semantic.type_registry)", ("C10",)),
         ("semantic.type_registry.pointer_size == old(semantic).type_registry.pointer_size", ("C10",)),
         ("vr0 is Some ==> pre.len() > 0 && pre[0] == vr0->0", ("C06",)),
